@@ -70,6 +70,16 @@ def _replace_leaf(e, idx, new):
     return rec(e)
 
 
+def _nodes(e):
+    """Operator nodes of e in the pre-order _replace_op counts in."""
+    if e[0] in logic.LEAF:
+        return []
+    out = [e]
+    for s_ in e[1:]:
+        out += _nodes(s_)
+    return out
+
+
 def _replace_op(e, idx, newop_fn):
     counter = [0]
 
@@ -81,6 +91,11 @@ def _replace_op(e, idx, newop_fn):
         op = newop_fn(x) if i == idx else x[0]
         return [op] + [rec(s) for s in x[1:]]
     return rec(e)
+
+
+def _alt_op_same_kind(x):
+    """Another operator of the same kind and arity; unary operators stay what they are."""
+    return x[0] if len(x) == 2 else _alt_op(x)
 
 
 def _alt_op(x):
@@ -121,6 +136,11 @@ def apply_edit(draw, model, only=None):
         options += ["remove-ctc", "operand"]
         if any(c["ast"][0] not in logic.LEAF for c in m["ctcs"]):
             options.append("operator")
+    if m["ctcs"] and only is not None and "operand-existing" in only:
+        options.append("operand-existing")
+    if only is not None and "operator-same-kind" in only and any(
+            len(x) == 3 for c in m["ctcs"] for x in _nodes(c["ast"])):
+        options.append("operator-same-kind")
     if only is not None:
         options = [o for o in options if o in only] or ["add-feature"]
     kind = draw(st.sampled_from(sorted(set(options))))
@@ -195,6 +215,15 @@ def apply_edit(draw, model, only=None):
         c = draw(st.sampled_from(m["ctcs"]))
         nleaves = len(list(build.expr_leaves(c["ast"])))
         c["ast"] = _replace_leaf(c["ast"], draw(st.integers(0, nleaves - 1)), ["T", _fresh(m, "Zq") + "_other"])
+    elif kind == "operand-existing":
+        # one operand becomes another feature of the model (the constraint keeps its name)
+        c = draw(st.sampled_from(m["ctcs"]))
+        nleaves = len(list(build.expr_leaves(c["ast"])))
+        c["ast"] = _replace_leaf(c["ast"], draw(st.integers(0, nleaves - 1)), ["T", draw(st.sampled_from(build.names(m)))])
+    elif kind == "operator-same-kind":
+        c = draw(st.sampled_from([c for c in m["ctcs"] if any(len(x) == 3 for x in _nodes(c["ast"]))]))
+        idxs = [i for i, x in enumerate(_nodes(c["ast"])) if len(x) == 3]
+        c["ast"] = _replace_op(c["ast"], draw(st.sampled_from(idxs)), _alt_op_same_kind)
     elif kind == "operator":
         c = draw(st.sampled_from([c for c in m["ctcs"] if c["ast"][0] not in logic.LEAF]))
         nops = len(list(build.expr_ops(c["ast"])))
